@@ -30,6 +30,8 @@ that fact on the parsed trees and are skipped when it does not hold.
 
   if not C: A else: B               ==>          if C: B else: A    (only when both arms are present)
 
+  match S: case V: A; case _: B     ==>          if S == V: A else: B         (value/singleton/or/class()/capture/wildcard patterns)
+
   x[:3] == "abc"                    ==>          x.startswith("abc")          (likewise x[-3:] / endswith)
 
   if A and (x := E) != K: S         ==>          if A: x = E; if x != K: S
@@ -302,6 +304,81 @@ class Normaliser:
                     continue
             i += 1
         return stmts
+
+    def unmatch(self, st: ast.Match) -> list[ast.stmt] | None:
+        """match S: case V1: A; case V2 | V3: B; case _: C     ==>     if S == V1: A  elif S == V2 or S == V3: B  else: C
+        (value, singleton, or-, class-without-arguments, capture and wildcard patterns, guards; fixed-length sequences of those)"""
+        pre: list[ast.stmt] = []
+        subj = st.subject
+        if not _movable(subj) or isinstance(subj, ast.Call):
+            tmp = ast.Name(id="match_h", ctx=ast.Store())
+            pre.append(ast.fix_missing_locations(ast.copy_location(ast.Assign(targets=[tmp], value=subj), st)))
+            subj = ast.Name(id="match_h", ctx=ast.Load())
+
+        def conj(parts: list[ast.expr]) -> ast.expr:
+            parts = [p_ for p_ in parts if not (isinstance(p_, ast.Constant) and p_.value is True)]
+            if not parts:
+                return ast.Constant(value=True)
+            return parts[0] if len(parts) == 1 else ast.BoolOp(op=ast.And(), values=parts)
+
+        def pat(p_: ast.pattern, s_: ast.expr):
+            """(test expression, bindings) or None"""
+            if isinstance(p_, ast.MatchValue):
+                return ast.Compare(left=copy.deepcopy(s_), ops=[ast.Eq()], comparators=[p_.value]), []
+            if isinstance(p_, ast.MatchSingleton):
+                return ast.Compare(left=copy.deepcopy(s_), ops=[ast.Is()], comparators=[ast.Constant(value=p_.value)]), []
+            if isinstance(p_, ast.MatchOr):
+                subs = [pat(x, s_) for x in p_.patterns]
+                if any(x is None or x[1] for x in subs):
+                    return None
+                return ast.BoolOp(op=ast.Or(), values=[x[0] for x in subs]), []
+            if isinstance(p_, ast.MatchAs):
+                if p_.pattern is None:
+                    return ast.Constant(value=True), ([] if p_.name is None else [(p_.name, copy.deepcopy(s_))])
+                inner = pat(p_.pattern, s_)
+                if inner is None:
+                    return None
+                return inner[0], inner[1] + ([(p_.name, copy.deepcopy(s_))] if p_.name else [])
+            if isinstance(p_, ast.MatchClass) and not p_.patterns and not p_.kwd_patterns:
+                return ast.Call(func=ast.Name(id="isinstance", ctx=ast.Load()), args=[copy.deepcopy(s_), p_.cls], keywords=[]), []
+            if isinstance(p_, ast.MatchSequence) and not any(isinstance(x, ast.MatchStar) for x in p_.patterns):
+                tests: list[ast.expr] = [ast.Call(func=ast.Name(id="isinstance", ctx=ast.Load()),
+                                                  args=[copy.deepcopy(s_), ast.Tuple(elts=[ast.Name(id="tuple", ctx=ast.Load()), ast.Name(id="list", ctx=ast.Load())], ctx=ast.Load())], keywords=[]),
+                                         ast.Compare(left=ast.Call(func=ast.Name(id="len", ctx=ast.Load()), args=[copy.deepcopy(s_)], keywords=[]), ops=[ast.Eq()],
+                                                     comparators=[ast.Constant(value=len(p_.patterns))])]
+                binds = []
+                for i, x in enumerate(p_.patterns):
+                    r_ = pat(x, ast.Subscript(value=copy.deepcopy(s_), slice=ast.Constant(value=i), ctx=ast.Load()))
+                    if r_ is None:
+                        return None
+                    tests.append(r_[0])
+                    binds += r_[1]
+                return conj(tests), binds
+            return None
+        chain: list[tuple[ast.expr, list[ast.stmt]]] = []
+        for c in st.cases:
+            r = pat(c.pattern, subj)
+            if r is None:
+                return None
+            test, binds = r
+            bind_stmts = [ast.Assign(targets=[ast.Name(id=n, ctx=ast.Store())], value=v) for (n, v) in binds]
+            if c.guard is not None:
+                if binds:
+                    return None   # a guard that may use the captures: not expressible as one test
+                test = conj([test, c.guard])
+            chain.append((test, bind_stmts + c.body))
+        # build nested if/elif from the end
+        orelse: list[ast.stmt] = []
+        for test, body in reversed(chain):
+            if isinstance(test, ast.Constant) and test.value is True:
+                orelse = body
+            else:
+                orelse = [ast.If(test=test, body=body, orelse=orelse)]
+        out = pre + orelse
+        for x in out:
+            ast.fix_missing_locations(ast.copy_location(x, st))
+        self.hit("match->if-chain")
+        return self.block(out)
 
     def unwalrus(self, st: ast.stmt) -> list[ast.stmt] | None:
         """if A and (x := E) != K: S          if A: x = E; if x != K: S
@@ -607,6 +684,10 @@ class Normaliser:
         if isinstance(st, ast.AnnAssign) and st.value is None and isinstance(st.target, ast.Name) and self.in_function:
             self.hit("bare-local-annotation-dropped")   # `x: T` inside a function neither binds nor evaluates anything
             return []
+        if isinstance(st, ast.Match):
+            r = self.unmatch(st)
+            if r is not None:
+                return r
         if isinstance(st, (ast.If, ast.While)):
             r = self.unwalrus(st)
             if r is not None:
